@@ -119,15 +119,20 @@ first, the top four bits of the last byte skipped. -/
 def scalarBits (k : Nat) : List Bool :=
   (List.range 252).reverse.map (fun i => k.testBit i)
 
+/-- Loop of `ExtendedNielsPoint::multiply` over an explicit bit list (most significant first):
+`acc = acc.double(); acc += conditional_select(&zero, self, bit)`. -/
+def ENiels.multiplyBits (q : ENiels F) (bits : List Bool) (acc : Ext F) : Ext F :=
+  bits.foldl (fun acc bit => addENiels acc.double (if bit then q else ENiels.identity)) acc
+
 /-- `ExtendedNielsPoint::multiply` (double-and-add over `scalarBits`). -/
-def ENiels.multiply (q : ENiels F) (k : Nat) : Ext F :=
-  (scalarBits k).foldl (fun acc bit => addENiels acc.double (if bit then q else ENiels.identity))
-    Ext.identity
+def ENiels.multiply (q : ENiels F) (k : Nat) : Ext F := q.multiplyBits (scalarBits k) Ext.identity
+
+/-- Loop of `JubjubAffineNiels::multiply`. -/
+def ANiels.multiplyBits (q : ANiels F) (bits : List Bool) (acc : Ext F) : Ext F :=
+  bits.foldl (fun acc bit => addANiels acc.double (if bit then q else ANiels.identity)) acc
 
 /-- `JubjubAffineNiels::multiply`. -/
-def ANiels.multiply (q : ANiels F) (k : Nat) : Ext F :=
-  (scalarBits k).foldl (fun acc bit => addANiels acc.double (if bit then q else ANiels.identity))
-    Ext.identity
+def ANiels.multiply (q : ANiels F) (k : Nat) : Ext F := q.multiplyBits (scalarBits k) Ext.identity
 
 /-- `JubjubExtended::multiply` : `self.to_niels().multiply(by)`. -/
 def Ext.multiply (d2 : F) (p : Ext F) (k : Nat) : Ext F := (p.toNiels d2).multiply k
